@@ -53,7 +53,8 @@ type gen struct {
 	r      *proto.Rand
 	cfg    genCfg
 	noFunc bool
-	top    int // depth of the root: `default` is generated at the root only (known finding default-operand)
+	plain  bool // keep out of the known finding postfix-operand-parens
+	top    int  // depth of the root: `default` is generated at the root only (known finding default-operand)
 }
 
 // noNumber replaces a number literal (whose printed form would be glued to a following `.` or
@@ -83,6 +84,49 @@ func numberBeforeDot(n ast.Node) (found bool) {
 		}
 	})
 	return
+}
+
+// bareOperatorOperand reports whether e, as the operand of a postfix expression, is printed
+// without the parentheses it needs (known finding postfix-operand-parens): a unary or binary
+// operator, except `*x` and `<-x` as the function of a call.
+func bareOperatorOperand(e ast.Expression, ofCall bool) bool {
+	switch x := e.(type) {
+	case *ast.BinaryOperator:
+		return true
+	case *ast.UnaryOperator:
+		return !(ofCall && (x.Op == ast.OperatorPointer || x.Op == ast.OperatorReceive))
+	}
+	return false
+}
+
+// nonPlain reports whether the tree contains a postfix expression with a bare operator operand.
+func nonPlain(n any) (found bool) {
+	walkAll(reflect.ValueOf(n), func(n ast.Node) {
+		switch x := n.(type) {
+		case *ast.Selector:
+			found = found || bareOperatorOperand(x.Expr, false)
+		case *ast.Index:
+			found = found || bareOperatorOperand(x.Expr, false)
+		case *ast.Slicing:
+			found = found || bareOperatorOperand(x.Expr, false)
+		case *ast.TypeAssertion:
+			found = found || bareOperatorOperand(x.Expr, false)
+		case *ast.Call:
+			found = found || bareOperatorOperand(x.Func, true)
+		}
+	})
+	return
+}
+
+// operandOf generates the operand of a postfix expression.
+func (g *gen) operandOf(depth int, ofCall bool) ast.Expression {
+	for i := 0; i < 8; i++ {
+		e := g.expr(depth)
+		if !g.plain || !bareOperatorOperand(e, ofCall) {
+			return e
+		}
+	}
+	return g.ident()
 }
 
 // endsWithNumber reports whether the last token of the printed form of e is a number literal.
@@ -249,15 +293,15 @@ func (g *gen) expr0(depth int) ast.Expression {
 		if variadic && endsWithNumber(args[len(args)-1]) {
 			variadic = false
 		}
-		return ast.NewCall(nil, g.expr(depth-1), args, variadic)
+		return ast.NewCall(nil, g.operandOf(depth-1, true), args, variadic)
 	case 6:
-		return ast.NewIndex(nil, g.expr(depth-1), g.expr(depth-1))
+		return ast.NewIndex(nil, g.operandOf(depth-1, false), g.expr(depth-1))
 	case 7:
 		name := g.r.Pick([]string{"F", "g", "x1"})
 		if g.cfg.modelOnly {
 			name = "x" + strconv.Itoa(g.r.Intn(6))
 		}
-		return ast.NewSelector(nil, g.noNumber(g.expr(depth-1)), name)
+		return ast.NewSelector(nil, g.noNumber(g.operandOf(depth-1, false)), name)
 	case 8:
 		return ast.NewBinaryOperator(nil, g.binaryOp(), g.expr(depth-1), g.expr(depth-1))
 	case 9:
@@ -272,9 +316,9 @@ func (g *gen) expr0(depth int) ast.Expression {
 		if full {
 			max = g.expr(depth - 1)
 		}
-		return ast.NewSlicing(nil, g.expr(depth-1), lo, hi, max, full)
+		return ast.NewSlicing(nil, g.operandOf(depth-1, false), lo, hi, max, full)
 	case 10:
-		return ast.NewTypeAssertion(nil, g.noNumber(g.expr(depth-1)), g.typ(2))
+		return ast.NewTypeAssertion(nil, g.noNumber(g.operandOf(depth-1, false)), g.typ(2))
 	case 11:
 		// conversion: type used as the function of a call
 		return ast.NewCall(nil, g.convType(), []ast.Expression{g.expr(depth - 1)}, false)
